@@ -81,6 +81,79 @@ fn widened() {
     let n: usize = kept.iter().map(|t| format!("{t:?}").len()).sum(); assert!(n > 0); drop(junk);
     let again: Vec<ST> = kept.iter().map(|t| t.clone()).collect(); drop(kept); for t in &again { assert!(Term::eq(t, t.clone())); }
 }
+/// Safe but ill-behaved user-defined terms (kind() and the accessors disagree, answers change between calls): every entry
+/// point of the stores may refuse them or panic (caught here), never run into undefined behaviour; the store and a clone
+/// taken before are read completely afterwards.  Kept small: Miri is slow.
+#[derive(Clone, Copy, Debug)]
+struct Odd<'a> { kind: sophia_api::term::TermKind, some: u8, flip: Option<&'a std::cell::Cell<u32>> }
+impl<'a> Odd<'a> {
+    /// bit i of `some`: accessor i (iri, bnode_id, lexical_form, datatype, language_tag, variable) answers Some; with `flip`, only at every other call
+    fn has(&self, i: u8) -> bool { let on = self.some >> i & 1 == 1; match self.flip { Some(c) => { let n = c.get(); c.set(n + 1); on && n % 2 == 0 } None => on } }
+}
+impl<'a> Term for Odd<'a> {
+    type BorrowTerm<'x> = Odd<'a> where Self: 'x;
+    fn borrow_term(&self) -> Odd<'a> { *self }
+    fn kind(&self) -> sophia_api::term::TermKind { match self.flip { Some(c) if self.some == 0xff => { let n = c.get(); c.set(n + 1); if n % 2 == 0 { sophia_api::term::TermKind::Iri } else { sophia_api::term::TermKind::Literal } } _ => self.kind } }
+    fn iri(&self) -> Option<sophia_api::term::IriRef<sophia_api::MownStr<'_>>> { self.has(0).then(|| sophia_api::term::IriRef::new_unchecked(sophia_api::MownStr::from_ref("http://odd.example/t"))) }
+    fn bnode_id(&self) -> Option<sophia_api::term::BnodeId<sophia_api::MownStr<'_>>> { self.has(1).then(|| sophia_api::term::BnodeId::new_unchecked(sophia_api::MownStr::from_ref("odd"))) }
+    fn lexical_form(&self) -> Option<sophia_api::MownStr<'_>> { self.has(2).then(|| sophia_api::MownStr::from_ref("odd lexical form")) }
+    fn datatype(&self) -> Option<sophia_api::term::IriRef<sophia_api::MownStr<'_>>> { self.has(3).then(|| sophia_api::term::IriRef::new_unchecked(sophia_api::MownStr::from_ref("http://www.w3.org/2001/XMLSchema#string"))) }
+    fn language_tag(&self) -> Option<sophia_api::term::LanguageTag<sophia_api::MownStr<'_>>> { self.has(4).then(|| sophia_api::term::LanguageTag::new_unchecked(sophia_api::MownStr::from_ref("en"))) }
+    fn variable(&self) -> Option<sophia_api::term::VarName<sophia_api::MownStr<'_>>> { self.has(5).then(|| sophia_api::term::VarName::new_unchecked(sophia_api::MownStr::from_ref("odd"))) }
+    fn triple(&self) -> Option<[Odd<'a>; 3]> { None }
+    fn to_triple(self) -> Option<[Odd<'a>; 3]> { None }
+}
+fn ill_behaved_terms() {
+    use sophia_api::term::TermKind::*; use sophia_api::term::matcher::Any;
+    let cell = std::cell::Cell::new(0u32);
+    let odds: Vec<Odd> = vec![
+        Odd { kind: Iri, some: 0, flip: None }, Odd { kind: BlankNode, some: 0, flip: None }, Odd { kind: Literal, some: 0, flip: None }, Odd { kind: Triple, some: 0, flip: None }, Odd { kind: Variable, some: 0, flip: None },
+        Odd { kind: Literal, some: 0b000100, flip: None }, Odd { kind: Literal, some: 0b001000, flip: None }, Odd { kind: Literal, some: 0b011100, flip: None }, Odd { kind: BlankNode, some: 0b000001, flip: None }, Odd { kind: Iri, some: 0b111111, flip: None },
+        Odd { kind: Iri, some: 0b000001, flip: Some(&cell) }, Odd { kind: Iri, some: 0xff, flip: Some(&cell) },
+    ];
+    let quiet = |f: &mut dyn FnMut()| { let _ = std::panic::catch_unwind(std::panic::AssertUnwindSafe(|| f())); };
+    let prev = std::panic::take_hook(); std::panic::set_hook(Box::new(|_| {}));
+    let t0 = terms(0); let t1 = terms(1);
+    for (n, odd) in odds.iter().enumerate() { for start in 0..2 {
+        let mut g = FastGraph::new(); g.insert(&t0[0], &t0[1], &t0[2]).unwrap(); g.insert(&t1[0], &t1[1], &t1[2]).unwrap(); let gc = g.clone();
+        let mut d = LightDataset::new(); d.insert(&t0[0], &t0[1], &t0[2], Some(&t0[1])).unwrap(); d.insert(&t1[0], &t1[1], &t1[2], None::<&ST>).unwrap(); let dc = d.clone();
+        let mut ix = SimpleTermIndex::<u16>::new(); for t in &t0 { ix.ensure_index(t).unwrap(); } let ic = ix.clone();
+        let o = *odd; cell.set(start);
+        quiet(&mut || { let _ = g.insert(o, o, o); }); quiet(&mut || { let _ = g.remove(o, o, o); }); quiet(&mut || { let _ = g.contains(o, o, o); });
+        quiet(&mut || { let _ = g.triples_matching([o], Any, Any).count(); }); quiet(&mut || { let _ = g.triples_matching(Any, [o], [o]).count(); });
+        if n % 3 == 0 { quiet(&mut || { let _ = g.insert_all(std::iter::once(Ok::<_, MyErr>([o, o, o]))); }); quiet(&mut || { let _ = g.remove_matching(Any, Any, [o]); }); }
+        quiet(&mut || { let _ = d.insert(o, o, o, Some(o)); }); quiet(&mut || { let _ = d.remove(o, o, o, Some(o)); }); quiet(&mut || { let _ = d.quads_matching(Any, [o], Any, [Some(o)]).count(); });
+        quiet(&mut || { let _ = ix.ensure_index(o); }); quiet(&mut || { let _ = ix.get_index(o); });
+        // everything is still readable, the clones taken before are untouched
+        assert!(g.triples().map(|t| format!("{:?}", t.unwrap())).count() >= 2); assert_eq!(gc.triples().map(|t| format!("{:?}", t.unwrap())).count(), 2);
+        assert!(d.quads().map(|q| format!("{:?}", q.unwrap())).count() >= 2); assert_eq!(dc.quads().map(|q| format!("{:?}", q.unwrap())).count(), 2);
+        for i in 0..ix.len() { let _ = format!("{:?}", ix.get_term(i as u16)); } assert_eq!(ic.len(), 3);
+        drop(g); drop(d); drop(ix); assert_eq!(gc.triples_matching(Any, [&t0[1]], Any).count(), 2); assert_eq!(dc.quads_matching(Any, Any, Any, [None::<&ST>]).count(), 1); let _ = format!("{:?}", ic.get_term(2));
+    } }
+    std::panic::set_hook(prev);
+}
+/// A clone taken BEFORE any query was made on the original, then mutations of either side, then queries of every shape
+/// on both sides: neither side may answer with (or read) what belongs to the other
+fn clone_before_first_query() {
+    use sophia_api::term::matcher::Any;
+    let t: Vec<[ST; 3]> = (0..4).map(terms).collect();
+    for mutate_clone in [false, true] { for clone_first in [false, true] {
+        let mut a = FastGraph::new(); a.insert(&t[0][0], &t[0][1], &t[0][2]).unwrap(); a.insert(&t[1][0], &t[1][1], &t[1][2]).unwrap();
+        let mut b = a.clone();
+        { let m = if mutate_clone { &mut b } else { &mut a }; m.insert(&t[2][0], &t[2][1], &t[2][2]).unwrap(); assert!(m.remove(&t[0][0], &t[0][1], &t[0][2]).unwrap()); }
+        let (na, nb) = if mutate_clone { (2, 2) } else { (2, 2) };
+        let count = |g: &FastGraph| [g.triples_matching(Any, [&t[0][1]], Any).count(), g.triples_matching(Any, Any, [&t[2][2]]).count(), g.triples_matching([&t[1][0]], Any, [&t[1][2]]).count(), g.triples_matching(Any, [&t[0][1]], [&t[0][2]]).count(), g.triples().count()];
+        let (ca, cb) = if clone_first { let cb = count(&b); (count(&a), cb) } else { let ca = count(&a); (ca, count(&b)) };
+        let mutated = [2, 1, 1, 0, 2]; let untouched = [2, 0, 1, 1, 2];
+        assert_eq!(ca, if mutate_clone { untouched } else { mutated }); assert_eq!(cb, if mutate_clone { mutated } else { untouched }); assert_eq!((na, nb), (2, 2));
+        if clone_first { drop(a); assert_eq!(count(&b), cb); } else { drop(b); assert_eq!(count(&a), ca); }
+    } }
+    let mut d = FastDataset::new(); d.insert(&t[0][0], &t[0][1], &t[0][2], Some(&t[0][1])).unwrap(); d.insert(&t[1][0], &t[1][1], &t[1][2], None::<&ST>).unwrap();
+    let e = d.clone(); assert!(d.remove(&t[0][0], &t[0][1], &t[0][2], Some(&t[0][1])).unwrap()); d.insert(&t[2][0], &t[2][1], &t[2][2], None::<&ST>).unwrap();
+    assert_eq!(d.quads_matching(Any, [&t[0][1]], Any, Any).count(), 2); assert_eq!(e.quads_matching(Any, [&t[0][1]], Any, Any).count(), 2);
+    assert_eq!(e.quads_matching(Any, Any, [&t[0][2]], [Some(&t[0][1])]).count(), 1); assert_eq!(d.quads_matching(Any, Any, [&t[0][2]], [Some(&t[0][1])]).count(), 0);
+    drop(d); assert_eq!(e.quads_matching([&t[0][0]], Any, Any, Any).count(), 1);
+}
 fn main() {
     scenario!(FastGraph, |g: &mut FastGraph, k: usize| { let t = terms(k); g.insert(&t[0], &t[1], &t[2]).unwrap(); }, |g: &FastGraph| g.triples().map(|t| { let t = t.unwrap(); t.s().is_iri() as usize + t.o().lexical_form().map(|l| l.len()).unwrap_or(0) * 0 }).count());
     scenario!(LightGraph, |g: &mut LightGraph, k: usize| { let t = terms(k); g.insert(&t[0], &t[1], &t[2]).unwrap(); }, |g: &LightGraph| g.triples().map(|t| t.unwrap().o().kind()).count());
@@ -89,5 +162,7 @@ fn main() {
     let mut ix = SimpleTermIndex::<u16>::default(); for k in 0..5 { for t in terms(k) { ix.ensure_index(&t).unwrap(); } }
     let iy = ix.clone(); drop(ix); for i in 0..iy.len() { let _ = format!("{:?}", iy.get_term(i as u16)); }
     widened();
+    ill_behaved_terms();
+    clone_before_first_query();
     println!("c10_miri: scenarios completed");
 }
